@@ -56,7 +56,7 @@ Proof.
   split; [apply short_lines_simple; repeat constructor; vm_compute; reflexivity|].
   split; [vm_compute; reflexivity|].
   split; [apply headings_dated_b_ok; vm_compute; reflexivity|].
-  split; [discriminate|]. split; vm_compute; reflexivity.
+  split; [discriminate|]. split; [intro HH; vm_compute in HH; discriminate HH|]. split; vm_compute; reflexivity.
 Qed.
 
 (** the file with the other days deleted: the records of 03/15 and 03/12 are gone with all their
@@ -86,8 +86,8 @@ Definition ex_i : invocation :=
   ex_inv None (Some (b "2021/03/01")) (Some (b "2021/03/14")) (Some (b "2021/03/13")) None CReg.
 
 Definition ex_op : options :=
-  {| op_db := []; op_log := b "log.yaml"; op_fmt := b "2006/01/02"; op_depth := 10;
-     op_now := w_clock ex_w; op_begin := ex_bt; op_end := ex_et;
+  {| op_db := dev_null; op_log := b "log.yaml"; op_fmt := b "2006/01/02"; op_depth := 10;
+     op_now := time_of_civil (civ (w_clock ex_w)); op_begin := ex_bt; op_end := ex_et;
      op_rc := {| rc_color := false; rc_totals_only := false; rc_totals := true; rc_date := ex_toks;
                  rc_single_element := []; rc_single_food := []; rc_collapse_last := false; rc_collapse := false;
                  rc_group_food := false; rc_shorten := false; rc_old := false; rc_template := b "default";
@@ -109,7 +109,7 @@ Proof.
   split.
   - destruct ex_f_hypotheses as [Hwf [Hs [Hc [Hd Hf]]]].
     exact (period_is_deletion_run ZNum ex_w ex_i ex_op ex_f ex_load eq_refl Hwf Hs Hc Hd Hf
-             ltac:(discriminate) ltac:(vm_compute; discriminate)).
+             ltac:(vm_compute; discriminate) ltac:(vm_compute; discriminate)).
   - split; [vm_compute; reflexivity|]. split; [vm_compute; lia|]. vm_compute. discriminate.
 Qed.
 
@@ -193,7 +193,7 @@ Proof.
   - split; vm_compute; reflexivity.
 Qed.
 
-(** an injected read fault on the log (third conjunct of [file_is] fails): the fault sits at a byte
+(** an injected read fault on the log (last conjunct of [file_is] fails): the fault sits at a byte
     OFFSET, and deleting days moves the bytes under it *)
 Example read_fault_free_needed :
   let w0 := ex_world_log (render ex_f) in
